@@ -421,6 +421,77 @@ func init() {
 	ctl("updateRow computes its update from the unmutated row again", "T-STALE", "updateRow|current row of AddOperation", "updates", "referenceTracker", "updateRow", kStmt, "model = mutated", 0, to("_ = mutated"))
 	ctl("getModel forgets the updates of earlier rounds", "T-SEEALL", "getModel|row state includes earlier rounds", "updates", "referenceTracker", "getModel", kExpr, "rt.referenceUpdates.GetModel(table, uuid)", 0, to("rt.updates.GetModel(table, uuid)"))
 	ctl("generator skips the write when the lengths agree", "GEN-SKIP", "Generate|write skipped only for identical content", "modelgen", "generator", "Generate", kExpr, "bytes.Equal(content, src)", 0, to("len(content) == len(src)"))
+	ctl("merge treats every bounded set as an atomic value", "MAX-ONE", "mergeModifyRow|Max() compared with 1", "updates", "", "mergeModifyRow", kExpr, "ts.Column(k).TypeObj.Max() != 1", 0, to("ts.Column(k).TypeObj.Max() == ovsdb.Unlimited"))
+	registerControl(&ControlDef{Name: "expansion returns early when no name was declared", Rule: "N-SKIP", Expect: "ExpandNamedUUIDs|successful return after the validation pass", Edit: func(p *Program) ([]TextEdit, error) {
+		fd, _, err := p.funcDecl("ovsdb", "", "ExpandNamedUUIDs")
+		if err != nil {
+			return nil, err
+		}
+		var loop ast.Node
+		ast.Inspect(fd.Body, func(n ast.Node) bool {
+			if rs, ok := n.(*ast.RangeStmt); ok && strings.Contains(p.text(rs), "schema.Table(op.Table)") {
+				if loop == nil {
+					loop = rs
+				}
+			}
+			return true
+		})
+		if loop == nil {
+			return nil, fmt.Errorf("substitution loop not found")
+		}
+		return []TextEdit{p.editReplace(loop, "if len(uuidMap) == 0 {\nreturn ops, nil\n}\n"+p.text(loop))}, nil
+	}})
+	ctl("error scan bounded by the operations, not the results", "T-SCAN", "Transact|Commit after error scan", "server", "OvsdbServer", "Transact", kStmt, "for _, operResult := range response {", 0, sub("for _, operResult := range response {", "for i := range ops {\noperResult := response[i]"))
+	registerControl(&ControlDef{Name: "set encoder builds its output in a package-level buffer", Rule: "G-GLOBAL", Expect: "OvsSet).MarshalJSON|write to package-level", Edit: func(p *Program) ([]TextEdit, error) {
+		fd, _, err := p.funcDecl("ovsdb", "OvsSet", "MarshalJSON")
+		if err != nil {
+			return nil, err
+		}
+		decl, err := locate(p, "ovsdb", "OvsSet", "MarshalJSON", kStmt, "var oSet []interface{}", 0)
+		if err != nil {
+			return nil, err
+		}
+		return []TextEdit{p.editReplace(decl, "setScratch = setScratch[:0]\noSet := setScratch"), p.editRange(fd.End(), fd.End(), "\n\nvar setScratch = make([]interface{}, 0, 2)\n"),
+		}, nil
+	}})
+	registerControl(&ControlDef{Name: "cache runner goroutine captures the loop variable", Rule: "G-LOOPVAR", Expect: "connect|goroutine started in a loop", Edit: func(p *Program) ([]TextEdit, error) {
+		fd, _, err := p.funcDecl("client", "ovsdbClient", "connect")
+		if err != nil {
+			return nil, err
+		}
+		var gs *ast.GoStmt
+		ast.Inspect(fd.Body, func(n ast.Node) bool {
+			if g, ok := n.(*ast.GoStmt); ok && strings.Contains(p.text(g), "func(db *database)") {
+				gs = g
+			}
+			return true
+		})
+		if gs == nil {
+			return nil, fmt.Errorf("go func(db *database) not found in connect")
+		}
+		txt := p.text(gs)
+		txt = strings.Replace(txt, "func(db *database)", "func()", 1)
+		if i := strings.LastIndex(txt, "}(db)"); i >= 0 {
+			txt = txt[:i] + "}()" + txt[i+len("}(db)"):]
+		}
+		return []TextEdit{p.editReplace(gs, txt)}, nil
+	}})
+	registerControl(&ControlDef{Name: "per-operation update variable lives across iterations", Rule: "R-ITER", Expect: "Transact|update of Merge produced in this iteration", Edit: func(p *Program) ([]TextEdit, error) {
+		a, err := locate(p, "database/transaction", "Transaction", "Transact", kStmt, "var u *updates.ModelUpdates", 0)
+		if err != nil {
+			return nil, err
+		}
+		b, err := locate(p, "database/transaction", "Transaction", "Transact", kStmt, "var r ovsdb.OperationResult", 0)
+		if err != nil {
+			return nil, err
+		}
+		eds := []TextEdit{p.editReplace(a, ""), p.editReplace(b, "var r ovsdb.OperationResult\nvar u *updates.ModelUpdates")}
+		if c, err := locate(p, "database/transaction", "Transaction", "Transact", kStmt, "u = nil", 0); err == nil {
+			eds = append(eds, p.editReplace(c, "_ = u"))
+		}
+		return eds, nil
+	}})
+	ctl("Update rewrites the cached row in place", "A2-INPLACE", "RowCache).Update|destination of CloneInto", "cache", "RowCache", "Update", kStmt, "r.cache[uuid] = model.Clone(m)", 0, to("model.CloneInto(m, r.cache[uuid])"))
 	ctl("lock taken before waiting for the handlers", "L-WAIT", "handleDisconnectNotification|WaitGroup.Wait", "client", "ovsdbClient", "handleDisconnectNotification", kStmt, "o.handlerShutdown.Wait()", 0, to("o.shutdownMutex.Lock()\no.handlerShutdown.Wait()\no.shutdownMutex.Unlock()"))
 	ctl("transact accepts an empty operation list", "G-ARGS", "at least one operation", "server", "OvsdbServer", "Transact", kExpr, "len(args) < 2", 0, to("len(args) < 1"))
 	ctl("delete-by-keys special case for every column", "P-NIL-TYPEOBJ", "addMutateOperation|deref", "updates", "ModelUpdates", "addMutateOperation", kExpr, `mutation.Mutator == "delete" && column.Type == ovsdb.TypeMap && reflect.TypeOf(mutation.Value) != reflect.TypeOf(ovsdb.OvsMap{})`, 0, to(`mutation.Mutator == "delete" && reflect.TypeOf(mutation.Value) != reflect.TypeOf(ovsdb.OvsMap{})`))
